@@ -106,6 +106,29 @@ class Cover:
         return out
 
 
+def shape(text):
+    """a line's statement with local names replaced by positional placeholders and comments dropped, so that renaming a local or
+    editing a comment does not turn a baseline line into a `new' one; attribute names, calls, constants and operators are kept"""
+    import ast
+    src = text.strip()
+    tree = None
+    for cand in (src, src + "\n    pass", "if True:\n    pass\n" + src + "\n    pass", "try:\n    pass\n" + src + "\n    pass"):
+        try:
+            tree = ast.parse(cand)
+            break
+        except SyntaxError:
+            continue
+    if tree is None:
+        return src.split("#", 1)[0].strip()
+    names = {}
+    for n in ast.walk(tree):
+        if isinstance(n, ast.Name) and n.id not in ("self", "cls", "True", "False", "None"):
+            n.id = names.setdefault(n.id, f"_v{len(names)}")
+        elif isinstance(n, ast.arg):
+            n.arg = names.setdefault(n.arg, f"_v{len(names)}")
+    return ast.dump(tree, annotate_fields=False)
+
+
 def load_baseline():
     if os.path.exists(BASELINE):
         return json.load(open(BASELINE))
@@ -116,11 +139,11 @@ def gate(chk, cover, only_functions=None):
     """register a tie failure for code of the anchored files that the correspondence run never executed and that is not in
     the committed baseline.  `only_functions`: restrict to these qualified names (prefix match)."""
     base = load_baseline().get(chk.pid, [])
-    known = {(b["file"], b["function"], b["text"]) for b in base}
+    known = {(b["file"], b["function"], b["text"]) for b in base} | {(b["file"], b["function"], shape(b["text"])) for b in base}
     miss = cover.missing(entered_only=not os.environ.get("VERIF_WRITE_COVERAGE_BASELINE"))
     if only_functions is not None:
         miss = [m for m in miss if any(m[1] == f or m[1].startswith(f + ".") for f in only_functions)]
-    new = [m for m in miss if (m[0], m[1], m[3]) not in known]
+    new = [m for m in miss if (m[0], m[1], m[3]) not in known and (m[0], m[1], shape(m[3])) not in known]
     chk.extra["coverage_gate"] = {"files": sorted(cover.files.values()), "lines_hit": len(cover.hits),
                                   "uncovered_in_baseline": len(miss) - len(new), "uncovered_new": [list(m) for m in new[:10]]}
     if os.environ.get("VERIF_WRITE_COVERAGE_BASELINE"):
